@@ -303,7 +303,10 @@ def model_spec(
         "objective": objective_d,
         "direction": draw(st.sampled_from(list(directions))),
         "groups": groups_l,
-        "compartments": {c: draw(st.sampled_from(["", "cytosol", "extracellular space", "periplasm"])) for c in sorted({m["compartment"] for m in mets})} if rich_meta else {},
+        # descriptions for all, some or none of the compartments the metabolites live in (a compartment needs no
+        # description to exist; since seeded change C10-9)
+        "compartments": {c: draw(st.sampled_from(["", "cytosol", "extracellular space", "periplasm"])) for c in sorted({m["compartment"] for m in mets})
+                         if draw(st.integers(0, 3)) > 0} if rich_meta else {},
         "solver": draw(st.sampled_from(list(solvers))),
         "cons": cons,
         "notes": draw(NOTES) if rich_meta else {},
